@@ -14,7 +14,7 @@ RULE = ("images with dims 1..12, 1..5 components, all number types, created with
         "optional FillValue attribute before the first write; histories of GRwriteimage rectangles/strides inside "
         "the image (buffers in the creation interlace), GRreqimageil x GRreadimage rectangles/strides (buffers in "
         "the requested interlace: 3x3 combinations), 256x3 palettes via GRwritelut/GRreqlutil/GRreadlut, "
-        "GRsetcompress(RLE|skphuff|deflate) with whole-image writes, GRsetchunk (+coder, cache) with region writes and whole-chunk GRwritechunk/GRreadchunk (round trip per "
+        "GRsetcompress(RLE|skphuff|deflate) with whole-image writes, old-style RLE rasters written by DFR8 (up to 300 pixels wide, runs of 1..260 equal pixels) rewritten and read through GR, GRsetchunk (+coder, cache) with region writes and whole-chunk GRwritechunk/GRreadchunk (round trip per "
         "chunk; which pixels a chunk covers is not modelled), "
         "GRendaccess/GRend/reopen, GRgetiminfo/GRgetlutinfo/GRnametoindex/GRreftoindex; numpy HxWxC model with "
         "value/fill/unknown cells. Non-trivial = ncomp>=2 with a non-pixel interlace on either side and a "
@@ -56,6 +56,20 @@ def from_il(buf, dt, h, w, c, il):
     return a.reshape(c, h, w).transpose(1, 2, 0)
 
 
+def rle8_block(w, h, seed):
+    """rows made of long uniform runs (lengths around the 120..130 boundary of the old RLE coder) and noise"""
+    a = np.zeros((h, w), dtype=np.uint8)
+    for y in range(h):
+        x = 0
+        k = seed + y
+        while x < w:
+            run = [1, 3, 119, 120, 121, 127, 128, 129, 150, 260][(k * 7 + x) % 10]
+            a[y, x:x + run] = (k * 13 + x) % 251
+            x += run
+            k += 1
+    return a
+
+
 def draw_region(draw, W, H):
     sx = draw(st.integers(1, 3)) if draw(st.booleans()) else 1
     sy = draw(st.integers(1, 3)) if draw(st.booleans()) else 1
@@ -73,8 +87,13 @@ def strategy_(draw, tier):
     ncomp = draw(st.sampled_from([1, 1, 2, 3, 3, 4, 5]))
     nt = draw(st.sampled_from(sorted(sm.NT)))
     il = draw(st.sampled_from([PIXEL, PIXEL, LINE, COMP]))
-    storage = draw(st.sampled_from(["plain"] * 5 + ["comp", "comp", "chunk", "chunk", "chunkcomp"]))
+    storage = draw(st.sampled_from(["plain"] * 5 + ["comp", "comp", "chunk", "chunk", "chunkcomp", "rle8"]))
     scfg = None
+    if storage == "rle8":
+        # an old-style run-length compressed 8-bit raster written by DFR8 and then accessed through GR; wide enough
+        # for runs longer than the coder's 7-bit count
+        W, H = draw(st.sampled_from([3, 130, 200, 300])), draw(st.integers(1, 5))
+        ncomp, nt, il = 1, "uint8", PIXEL
     if storage == "comp":
         scfg = {"comp": draw(st.sampled_from([[1, 0], [3, 1], [3, 2], [4, 1], [4, 6], [4, 9]]))}
     elif storage in ("chunk", "chunkcomp"):
@@ -82,7 +101,7 @@ def strategy_(draw, tier):
                 "cache": draw(st.sampled_from([None, 1, 2, 5])),
                 "comp": draw(st.sampled_from([[1, 0], [3, 2], [4, 6]])) if storage == "chunkcomp" else None}
     fill = None
-    if draw(st.booleans()):
+    if draw(st.booleans()) and storage != "rle8":
         fill = [draw(st.integers(1, 100)) for _ in range(ncomp)]
     ops = []
     for _ in range(draw(st.integers(2, 12))):
@@ -95,7 +114,7 @@ def strategy_(draw, tier):
                 ops.append(["rchunk", draw(st.integers(0, 20)), draw(st.integers(0, 20)),
                             draw(st.sampled_from([PIXEL, PIXEL, LINE, COMP]))])
         elif c < 35:
-            if storage == "comp":
+            if storage in ("comp", "rle8"):
                 ops.append(["write", [0, 0], None, [W, H], draw(st.integers(0, 99))])
             else:
                 s, sd, cn = draw_region(draw, W, H)
@@ -138,10 +157,22 @@ def run_case(case):
         path = os.path.join(d, "r.hdf")
         p = Prog()
         checks = []
-        p.call("i", "Hopen", path, 7, 0, bind="f")
-        checks.append((p.call("i", "GRstart", V("f"), bind="gr"), "nofail", "GRstart"))
-        checks.append((p.call("i", "GRcreate", V("gr"), "img", C, sm.NT[nt][0], case["il"], i32s(W, H), bind="ri"),
-                       "nofail", "GRcreate"))
+        if storage == "rle8":
+            img0 = rle8_block(W, H, 1)
+            checks.append((p.call("i", "DFR8addimage", path, img0.tobytes(), W, H, 11), "ret0", "DFR8addimage RLE"))
+            checks.append((p.call("i", "DFR8restart"), "ret0", "DFR8restart"))
+            p.call("i", "Hopen", path, 3, 0, bind="f")
+            checks.append((p.call("i", "GRstart", V("f"), bind="gr"), "nofail", "GRstart"))
+            checks.append((p.call("i", "GRselect", V("gr"), 0, bind="ri"), "nofail", "GRselect"))
+            val[:, :, 0] = img0
+            stt[:] = 1
+            labels.add("special_storage")
+            labels.add("old_style_rle")
+        else:
+            p.call("i", "Hopen", path, 7, 0, bind="f")
+            checks.append((p.call("i", "GRstart", V("f"), bind="gr"), "nofail", "GRstart"))
+            checks.append((p.call("i", "GRcreate", V("gr"), "img", C, sm.NT[nt][0], case["il"], i32s(W, H), bind="ri"),
+                           "nofail", "GRcreate"))
         if case["fill"] is not None:
             checks.append((p.call("i", "GRsetattr", V("ri"), "FillValue", sm.NT[nt][0], C, fillv.tobytes()), "ret0",
                            "GRsetattr FillValue"))
@@ -160,7 +191,7 @@ def run_case(case):
             labels.add("special_storage")
         cur_il = case["il"]         # interlace in which GRwriteimage interprets buffers
         last_chunk = {}             # chunk index -> block last written with GRwritechunk (until the next GRwriteimage)
-        written = False
+        written = storage == "rle8"
         dirty = False
         excluded = []
         known_keys = set()
@@ -185,6 +216,8 @@ def run_case(case):
                     known_keys.add("C09-skphuff-image-rewrite")
                 strd = sd or [1, 1]
                 block = sm.gen_values(nt, seed, cy * cx * C).reshape(cy, cx, C)
+                if storage == "rle8":
+                    block = rle8_block(cx, cy, seed).reshape(cy, cx, 1)
                 checks.append((p.call("i", "GRwriteimage", V("ri"), i32s(*s), i32s(*sd) if sd else None, i32s(*cn),
                                       to_il(block, cur_il)), "ret0", "GRwriteimage %s/%s/%s" % (s, sd, cn)))
                 dirty = True
@@ -272,6 +305,8 @@ def run_case(case):
             elif k == "info":
                 ln = p.call("i", "GRgetiminfo", V("ri"), OutS(300), Out(4), Out(4), Out(4), Out(8), Out(4))
                 checks.append((ln, "info", None))
+                if storage == "rle8":
+                    continue
                 checks.append((p.call("i", "GRnametoindex", V("gr"), "img"), "retn", (0, "GRnametoindex")))
                 checks.append((p.call("i", "GRreftoindex", V("gr"), V("riref")), "retn", (0, "GRreftoindex")))
             elif k == "reselect":
@@ -303,6 +338,11 @@ def run_case(case):
             checks.append((p.call("i", "GRselect", V("gr"), 0, bind="ri"), "nofail", "GRselect"))
             ln = p.call("i", "GRgetiminfo", V("ri"), OutS(300), Out(4), Out(4), Out(4), Out(8), Out(4))
             checks.append((ln, "info", None))
+            if storage in ("chunk", "chunkcomp"):
+                # a whole chunk read as the first access through the read-only file
+                c0_, c1_ = case["scfg"]["shape"]
+                ln = p.call("i", "GRreadchunk", V("ri"), i32s(0, 0), Out(c0_ * c1_ * C * isz))
+                checks.append((ln, "rchunk", (None, c1_, c0_, PIXEL, [0, 0], None)))
             for ril in (PIXEL, LINE, COMP):
                 checks.append((p.call("i", "GRreqimageil", V("ri"), ril), "ret0", "GRreqimageil"))
                 ln = p.call("i", "GRreadimage", V("ri"), i32s(0, 0), None, i32s(W, H), Out(W * H * C * isz))
@@ -385,7 +425,13 @@ def run_case(case):
                     nc = struct.unpack("=i", r.bufs[1])[0]
                     gnt = struct.unpack("=i", r.bufs[2])[0]
                     gd = un_i32s(r.bufs[4])
-                    if r.bufs[0] != b"img" or nc != C or (gnt & 0xff) != sm.NT[nt][0] or gd != [W, H]:
+                    if storage == "rle8":
+                        # images written by DFR8 get a generated name and are presented as 8-bit characters
+                        ok_ = r.bufs[0].startswith(b"Raster Image") and nc == 1 and (gnt & 0xff) in (3, 21) and \
+                            gd == [W, H]
+                    else:
+                        ok_ = r.bufs[0] == b"img" and nc == C and (gnt & 0xff) == sm.NT[nt][0] and gd == [W, H]
+                    if not ok_:
                         raise Fail("GRgetiminfo differs", observed=[str(r.bufs[0]), nc, gnt, gd],
                                    expected=["img", C, sm.NT[nt][0], [W, H]])
             if not rr.done:
